@@ -192,6 +192,8 @@ pub struct Tracked {
     id: u32,
     val: u32,
     magic: u64,
+    #[cfg(feature = "wide-elem")]
+    _pad: [u64; 14],
 }
 
 pub enum Validity {
@@ -216,12 +218,24 @@ impl Tracked {
             }
             id
         });
-        Tracked { id, val, magic: magic_for(id) }
+        Tracked {
+            id,
+            val,
+            magic: magic_for(id),
+            #[cfg(feature = "wide-elem")]
+            _pad: [0x5151_5151_5151_5151; 14],
+        }
     }
 
     /// An element the ledger ignores (used for calibration only).
     pub fn inert() -> Self {
-        Tracked { id: 0, val: 0, magic: INERT_MAGIC }
+        Tracked {
+            id: 0,
+            val: 0,
+            magic: INERT_MAGIC,
+            #[cfg(feature = "wide-elem")]
+            _pad: [0; 14],
+        }
     }
 
     #[inline]
